@@ -23,7 +23,10 @@ use cat::{core_is_expr, render_entry, site_literal, BlobD, Decls, EnumD, FTy, Ki
 pub struct C05;
 pub const CHECK: C05 = C05;
 pub fn plan(t: Tier) -> Plan {
-    Plan::new(t.pick(4_000, 80_000), t.pick(3000, 4200))
+    let mut p = Plan::new(t.pick(4_000, 80_000), t.pick(3000, 4200));
+    // the structural shrinker does the real work; keep proptest's tape shrinking short
+    p.max_shrink_iters = 60;
+    p
 }
 
 const MARK: &str = "@@C05@@";
@@ -452,21 +455,25 @@ impl Check for C05 {
         labels.add(format!("kind:{}", kind.name()));
         labels.add(if case.avoid { "avoid:on" } else { "avoid:off" });
 
-        // 1. the unplanted program must be accepted and loadable (otherwise nothing is attributable to the plant)
-        let base_out = compile(&b.base);
-        let base_lua = match &base_out {
-            Outcome::Accepted(l) => l,
-            Outcome::Rejected { .. } => {
-                dump("base", kind, &b.base, &base_out);
-                return Verdict::Discard("base-rejected".into());
+        // 1. the legal twin must be accepted (else the planted construct is not the only difference: discard) and
+        //    its Lua must load. The unplanted program is compiled only when the twin fails, to attribute the failure.
+        let base_state = |b: &Built| -> Result<(), Verdict> {
+            let base_out = compile(&b.base);
+            match &base_out {
+                Outcome::Accepted(l) => {
+                    if minilua::load(l).is_err() {
+                        Err(Verdict::Discard("base-unloadable".into()))
+                    } else {
+                        Ok(())
+                    }
+                }
+                Outcome::Rejected { .. } => {
+                    dump("base", kind, &b.base, &base_out);
+                    Err(Verdict::Discard("base-rejected".into()))
+                }
+                Outcome::Panicked { .. } => Err(Verdict::Discard("base-compiler-panicked".into())),
             }
-            Outcome::Panicked { .. } => return Verdict::Discard("base-compiler-panicked".into()),
         };
-        if minilua::load(base_lua).is_err() {
-            return Verdict::Discard("base-unloadable".into());
-        }
-
-        // 2. the legal twin: accepted (else the planted construct is not the only difference) and its Lua loads
         let ok_out = compile(&b.ok);
         match &ok_out {
             Outcome::Accepted(lua) => match minilua::load(lua) {
@@ -477,6 +484,9 @@ impl Check for C05 {
                     }
                 }
                 Err(e) => {
+                    if let Err(v) = base_state(&b) {
+                        return v;
+                    }
                     return Verdict::Violation {
                         signature: format!("C05/twin-load/{}/{}", e.class, kind.group()),
                         detail: format!(
@@ -493,6 +503,9 @@ impl Check for C05 {
                 }
             },
             Outcome::Rejected { errors, .. } => {
+                if let Err(v) = base_state(&b) {
+                    return v;
+                }
                 labels.add(format!("twin-rejected:{}:{}", kind.name(), errors.first().map(|e| e.sub.clone()).unwrap_or_default()));
                 dump("twin", kind, &b.ok, &ok_out);
                 return Verdict::Discard("twin-rejected".into());
@@ -649,9 +662,34 @@ impl Check for C05 {
                 }
                 finish(c)
             }
+            3 | 4 | 5 => {
+                // declarations the plant does not need (a needed one makes the candidate rejected: not kept)
+                let mut c = case.clone();
+                let d = &mut c.spec.decls;
+                let flag = match idx {
+                    3 => &mut d.blob.emit,
+                    4 => &mut d.blob2.emit,
+                    _ => &mut d.en.emit,
+                };
+                if !*flag {
+                    return Step::Skip;
+                }
+                *flag = false;
+                finish(c)
+            }
+            6 => {
+                // one big step first: only the global that holds the marker, and `start`
+                let mut c = case.clone();
+                let p = &case.prog;
+                c.prog.globals.retain(|g| p.var(g.var).name == "start" || serde_json::to_string(&g.value).map(|j| j.contains(MARK)).unwrap_or(true));
+                if c.prog.globals.len() == p.globals.len() || !syltmodel::shrink::validate(&c.prog) {
+                    return Step::Skip;
+                }
+                finish(c)
+            }
             _ => {
                 let pc = ProgCase { prog: case.prog.clone(), plan: SurfacePlan::default(), source: String::new() };
-                match shrink_step(&pc, idx - 3) {
+                match shrink_step(&pc, idx - 7) {
                     Step::End => Step::End,
                     Step::Skip => Step::Skip,
                     Step::Candidate(q) => {
